@@ -258,18 +258,37 @@ class Sub(object):
 _SUBS = None
 
 
+class PointTimeout(BaseException):
+    """not an Exception: the harness code that records library exceptions must not swallow it"""
+
+
+def _alarm(signum, frame):
+    raise PointTimeout('one point ran longer than %d s' % POINT_TIMEOUT)
+
+
+POINT_TIMEOUT = int(os.environ.get('VERIF_POINT_TIMEOUT', '400'))
+
+
 def _work(args):
+    import signal
     si, chunk = args
     sub = _SUBS[si]
     ctx = Ctx(_PROP, sub.name)
     fails = []
     n = 0
+    signal.signal(signal.SIGALRM, _alarm)
     for pt in chunk:
         ctx.point = pt
         ctx.fails = []
         n += 1
         try:
-            sub.run(ctx, pt)
+            signal.alarm(POINT_TIMEOUT)      # a change that makes the library loop forever is reported, not waited for
+            try:
+                sub.run(ctx, pt)
+            finally:
+                signal.alarm(0)
+        except PointTimeout as e:
+            ctx.fail('%s/%s/point-timeout' % (_PROP, sub.name), 'the point completes', str(e))
         except Exception as e:
             tb = traceback.format_exc(limit=6)
             ctx.fail('%s/%s/harness-exception/%s' % (_PROP, sub.name, type(e).__name__),
